@@ -190,7 +190,7 @@ func solveOne(c *Ctx, o *Obligation, dir string, timeoutS int, all bool) {
 	o.Solver = best.solver
 	o.Ms = best.ms
 	o.Output = strings.Join(outs, "; ") + "\n" + best.out
-	if o.Status == "unsat" {
+	if o.Status == "unsat" && os.Getenv("GOCV_KEEP_QUERIES") == "" {
 		os.Remove(qc)
 		os.Remove(o.Query)
 	}
